@@ -552,13 +552,15 @@ fn check_inst(i: &Inst, case: &mut Case) -> Result<(), Fail> {
         let b = lib("InstanceInformation::new", || make_inst(&t, false, 0))?;
         let eq = lib("InstanceInformation::eq", || a == b)?;
         let eq2 = lib("InstanceInformation::eq", || b == a)?;
-        ensure!(eq == eq2, "c16:instance-eq-asymmetric", "a == b is {} but b == a is {} ({})", eq, eq2, what);
-        if eq {
+        // (whether == is symmetric is not part of the statement: compared in either direction, equal values hash equally)
+        if eq || eq2 {
             case.class("near-twin-equal");
             ensure!(h(&a) == h(&b), "c16:hash-instance", "two InstanceInformation values that compare equal hash differently ({}): {:?} / {:?}", what, i, t);
         }
-        let set: std::collections::HashSet<InstanceInformation> = [a.clone(), b].into_iter().collect();
-        ensure!(set.len() == if eq { 1 } else { 2 }, "c16:hash-instance", "two InstanceInformation values with == {} occupy {} slots of a HashSet ({})", eq, set.len(), what);
+        if eq == eq2 {
+            let set: std::collections::HashSet<InstanceInformation> = [a.clone(), b].into_iter().collect();
+            ensure!(set.len() == if eq { 1 } else { 2 }, "c16:hash-instance", "two InstanceInformation values with == {} occupy {} slots of a HashSet ({})", eq, set.len(), what);
+        }
     }
     case.extra_evals = 31 + ntw;
     Ok(())
